@@ -1,6 +1,6 @@
 (* C04 — conversions deep-copy by default and never modify or race on the source. *)
 From Coq Require Import List NArith ZArith Bool.
-From GV Require Import Base Ty Conf Val Plan Eval EvalFacts AllocFacts.
+From GV Require Import Base Ty Conf Val Plan Eval EvalFacts AllocFacts FreshFacts.
 Import ListNotations.
 Open Scope N_scope.
 
@@ -26,8 +26,23 @@ Proof. exact eval_map_nonnil. Qed.
 Theorem C04_share_returns_source : forall e M F f cx src st, eval_v e M F (S f) cx PShare src st = Done (src, st).
 Proof. exact eval_share. Qed.
 
+(* the whole evaluator, every plan, method table, custom function table, value and fuel: each address in the result
+   of a conversion occurs in the source value (for an update: or in the previous content of the target), is the
+   interior-pointer marker of a source element, or was allocated by this very evaluation. So nothing but parts of
+   its own source can be shared, and no node of the source is ever written (values are immutable: a result is built
+   from fresh nodes and unchanged source parts only). *)
+Theorem C04_fresh_or_source : forall e M F fuel cx,
+  fresh_v (eval_v e M F fuel cx) /\ fresh_a (eval_a e M F fuel cx).
+Proof. exact fresh_or_source. Qed.
+(* ... custom functions only hand out fresh nodes (the oracle the harness implements) *)
+Theorem C04_function_results_fresh : forall e fuel t tok st v st' ok, mark e fuel t tok st = (v, st', ok) ->
+  st <= st' /\ forall a, In a (addrs v) -> st <= a < st'.
+Proof. exact mark_fresh. Qed.
+
 Print Assumptions C04_alloc_mono.
 Print Assumptions C04_pointer_fresh.
 Print Assumptions C04_slice_fresh.
 Print Assumptions C04_map_fresh.
 Print Assumptions C04_share_returns_source.
+Print Assumptions C04_fresh_or_source.
+Print Assumptions C04_function_results_fresh.
